@@ -12,8 +12,19 @@ use std::cell::Cell;
 pub const CPU_LIMIT: u64 = 50_000_000_000;
 pub const MEM_LIMIT: u64 = 1 << 30;
 
+thread_local! {
+    static BUDGET_SCALE: Cell<u64> = Cell::new(1);
+}
+
+/// Capacity runs (a registry driven to its documented limit of 10 000 entries) legitimately need more
+/// than the default per-invocation budget; they multiply it for their own duration.
+pub fn set_budget_scale(k: u64) {
+    BUDGET_SCALE.with(|b| b.set(k.max(1)));
+}
+
 pub fn reset_budget(env: &Env) {
-    env.cost_estimate().budget().reset_limits(CPU_LIMIT, MEM_LIMIT);
+    let k = BUDGET_SCALE.with(|b| b.get());
+    env.cost_estimate().budget().reset_limits(CPU_LIMIT.saturating_mul(k), MEM_LIMIT.saturating_mul(k));
 }
 
 pub struct World {
